@@ -276,6 +276,9 @@ class AnsiString:
                 if settings_to_remove:
                     self.remove_formatting(settings_to_remove, key)
                 if settings_to_apply:
+                    # Keep the order in which the sequence gave them (this is the order they are rendered in)
+                    sequence_order = {id(setting): idx for idx, setting in enumerate(settings)}
+                    settings_to_apply.sort(key=lambda setting: sequence_order.get(id(setting), -1))
                     self.apply_formatting(settings_to_apply, key)
 
     def simplify(self):
